@@ -104,6 +104,13 @@ def gen_reg(tier, seed):
         for a, b in itertools.product(specs, specs):
             for order in (['A', 'B'], ['B', 'A']):
                 yield {'variant': vi, 'A': a, 'B': b, 'order': order}
+        # check_dataset may answer any integer, not only the three named levels
+        ints = [-5, 0, 9, 10, 11, 29, 30, 31, 35, 1000]
+        for a, b in itertools.product(ints, ints):
+            if tier == 'quick' and (a + b) % 3:
+                continue
+            for order in (['A', 'B'], ['B', 'A']):
+                yield {'variant': vi, 'A': a, 'B': b, 'order': order}
 
 
 def test_reg(inp):
@@ -111,6 +118,7 @@ def test_reg(inp):
     ds = build(spec, mods)
     reg = ConventionRegistry()
     val = {None: None, 'LOW': Specificity.LOW, 'HIGH': Specificity.HIGH}
+    val.update({k: k for k in (inp['A'], inp['B']) if isinstance(k, int)})
     toys = {'A': make_toy('ToyA', val[inp['A']]), 'B': make_toy('ToyB', val[inp['B']])}
     before = reg.guess_convention(ds)
     if (before.__name__ if before else None) != want_builtin:
